@@ -264,6 +264,9 @@ func canEmitDirectly(k1, k2 reflect.Kind) bool {
 // This method operates on the current function builder, so must be called
 // before changing or saving it.
 func (em *emitter) setFunctionVarRefs(fn *runtime.Function, closureVars []ast.Upvar) {
+	if len(closureVars) > maxClosureVarsCount {
+		panic(newLimitExceededError(fn.Pos, em.fb.path, "closure variables count exceeded %d", maxClosureVarsCount))
+	}
 	refs := make([]int16, len(closureVars))
 	for i := range closureVars {
 		v := &closureVars[i]
